@@ -337,8 +337,11 @@ impl<'c> Interp<'c> {
         if !self.fails.iter().any(|f| f.oracle == oracle) {
             self.fails.push(Failure { oracle: oracle.to_string(), msg });
         }
-        // continuing after a failed oracle risks running on corrupted state
-        self.stop = true;
+        // continuing after a failed oracle risks running on corrupted state; an oracle of another property
+        // must not pre-empt the ones of the property under check, though
+        if bsv_core::runner::stops_case(bsv_core::runner::default_owns(bsv_core::runner::current_prop(), oracle)) {
+            self.stop = true;
+        }
     }
 
     pub fn note(&mut self, s: impl FnOnce() -> String) {
